@@ -12,8 +12,8 @@ from props import c08_asm as A
 from props import c08 as C08
 
 PASS = {"remove_sequential_jumps": 1, "remove_redundant_moves": 2, "remove_redundant_ops": 3, "dce": 4, "simplify_cfg": 5}
-QUICK_STD = ["ops", "flags", "result", "assert"]
-QUICK_E2E = 4
+QUICK_STD = ["ops", "flags", "assert"]
+QUICK_E2E = 3
 HEADER = ("From SwayV Require Import Base.Util Asm.Model C08.Spec C08.Model C07.Model C07.Spec C07.Judge.\n"
           "Local Open Scope N_scope.\n")
 
@@ -57,7 +57,8 @@ def observable(t):
 
 def run(ctx):
     ctx.level = "proof"
-    ok, out = coq.check_props(ctx, "C07", extra_targets=["C07/Judge.vo"])
+    coq.build(["C07/Judge.vo"])      # first, so that the Props.v output is not interleaved by make -j
+    ok, out = coq.check_props(ctx, "C07")
     if not ok:
         ctx.log(out[-3000:])
         ctx.violation("proof", {"theorems": [o for o in ctx.obligations if not o[1]], "log": out[-2000:]},
@@ -80,6 +81,9 @@ def run(ctx):
         if ctx.quick and ne >= QUICK_E2E: break
         d = A.prepare_pkg(os.path.join(C08.E2E, n), base, "e2e_" + n)
         if d: pkgs.append(d); kinds_of[d] = "e2e-language"; ne += 1
+    for src in sorted(glob.glob(os.path.join(os.path.dirname(os.path.dirname(os.path.abspath(__file__))), "corpus", "C07", "*", "Forc.toml"))):
+        d = A.prepare_pkg(os.path.dirname(src), base)
+        if d: pkgs.append(d); kinds_of[d] = "corpus"
     rel = set()
     for k in range(1 if ctx.quick else 5):
         d = gen_effects_pkg(ctx.rng, base, "fx_%d" % k, 4 if ctx.quick else 10); pkgs.append(d); kinds_of[d] = "generated-effects"
@@ -116,6 +120,7 @@ def run(ctx):
     ctx.log("built and ran %d packages twice in %.0fs" % (len(pkgs), time.time() - t0))
     # ---- the property: optimiser on == optimiser off
     ntests = ndiff = 0
+    differing = set()
     status = {}
     samples = []
     for d in pkgs:
@@ -133,14 +138,14 @@ def run(ctx):
             oa, ob = observable(ta.get(name, {})), observable(tb.get(name, {}))
             if len(samples) < 3 and oa["receipts"]: samples.append({"pkg": os.path.basename(d), "test": name, "observable": oa})
             if oa != ob:
-                ndiff += 1
+                ndiff += 1; differing.add(d)
                 ctx.violation("diff-%s-%s" % (os.path.basename(d), name), {"pkg": d, "test": name, "optimised": oa, "unoptimised": ob,
                                                                           "replay": "swayrun %s with and without VERIF_ASM_NOOPT=1" % d},
                               "test %s of %s behaves differently with the asm optimiser on (%s) and off (%s)" % (name, os.path.basename(d), oa["state"], ob["state"]))
     # ---- correspondence: modelled passes = real passes, side conditions of the theorems
-    budget = 150000 if ctx.quick else 2500000
+    budget = 60000 if ctx.quick else 2500000
     seen, cases, total_ops, npairs, skipped = set(), [], 0, 0, 0
-    order = sorted(pkgs, key=lambda d: (0 if kinds_of[d].startswith("generated") else 1, d))
+    order = sorted(pkgs, key=lambda d: (0 if kinds_of[d] == "corpus" else 1 if kinds_of[d].startswith("generated") else 2, d))
     for d in order:
         dump = ra[d][1]
         try:
@@ -185,8 +190,7 @@ def run(ctx):
                 ctx.violation("model-eval-count", {"expected": len(sh), "got": len(rs)}, "judge output count mismatch", no_input=True)
                 return
             for (i, _), r in zip(sh, rs):
-                (code, where), side = r[0], r[1]
-                code, where, side = int(code), int(where), int(side)
+                code, where, side = int(r[0]), int(r[1]), int(r[2])
                 p, e, x, d = cases[i]
                 hist.setdefault(p, {}); hist[p][code] = hist[p].get(code, 0) + 1
                 fn = e.get("function") or next((o["t"] for o in e["ops"]["ops"] if o["kind"]["k"] == "label"), "?")
@@ -203,7 +207,9 @@ def run(ctx):
                     has_mcp0 = PASS[p] == 3 and any(o["kind"]["k"] in ("mcp", "mcpi") for o in e["ops"]["ops"])
                     kind = "holds" if side == 0 else ("unproved-mcp" if has_mcp0 else "fails")
                     side_hist.setdefault(p, {}); side_hist[p][kind] = side_hist[p].get(kind, 0) + 1
-                    if kind == "fails":
+                    if kind == "fails" and d in differing:
+                        side_hist[p]["fails-with-behavioural-difference-reported"] = side_hist[p].get("fails-with-behavioural-difference-reported", 0) + 1
+                    elif kind == "fails":
                         ctx.violation("side-%s-%s-%s" % (p, os.path.basename(d), fn), rep,
                                       "pass %s on %s/%s deleted an instruction where the preservation theorem's side condition (pure, written registers dead) fails" % (p, os.path.basename(d), fn),
                                       no_input=True)
